@@ -262,6 +262,14 @@ def run(ctx):
     rep.floor('R-NEST-SAME', n_calls, 10)
     rule_strip_provenance(ctx, rep)
     rule_marker_arith(ctx, rep)
+    # "recursive tokenization of the stripped lines with the parent's start line": the line bookkeeping of the
+    # nested calls and of what the nested tokenizer builds from it is shared with C13
+    c13.rule_origin(ctx, rep)
+    c13.rule_rows(ctx, rep)
+    # the content of a quote / list item is interrupted like top-level text (interruption table in use under both
+    # settings of the setext switch that Quote.read flips): shared with C03
+    from . import c03
+    c03.rule_used(ctx, rep)
     # R-NEST-PHASE (shared with C07 clause c)
     from . import c07
     cg = ctx.callgraph()
